@@ -609,9 +609,17 @@ FLAGS = [
     'param_neg', 'param_expr', 'param_local', 'param_in_dims', 'param_real',
     # internal procedures
     'int_host_read', 'int_host_write', 'int_host_array', 'int_fun',
+    'clash_actual',     # (with clash_dummy) an actual argument mentions a caller variable named like a dummy of the callee
+    # layout / shapes that are triggers of listed findings (see props/c28.py EXCLUDE_FLAGS)
+    'mixed_case',       # identifiers are spelled in varying letter case (layout idcase = mixed)
+    'const_elseif',     # an ELSE IF branch may have a compile-time constant condition
+    'site_if1_call',    # one-line IF whose statement is a CALL to an internal subroutine
 ]
-SIZES = {'subs': (1, 3), 'funs': (1, 2), 'sites': (2, 5), 'fill': (1, 4), 'ints': (1, 2), 'sfs': (1, 2), 'params': (1, 3)}
-SIZE_MIN = {'subs': 1, 'funs': 1, 'sites': 1, 'fill': 0, 'ints': 1, 'sfs': 1, 'params': 1}
+# probability (percent) of a flag being on; default FLAG_PCT
+FLAG_PCT = 45
+FLAG_PCTS = {'int_fun': 15, 'opt_absent': 30, 'mixed_case': 30, 'routine_use': 30, 'unmarked_mix': 30}
+SIZES = {'subs': (1, 3), 'funs': (1, 2), 'sites': (0, 3), 'fill': (0, 2), 'ints': (1, 2), 'sfs': (1, 2), 'params': (1, 3)}
+SIZE_MIN = {'subs': 1, 'funs': 1, 'sites': 0, 'fill': 0, 'ints': 1, 'sfs': 1, 'params': 1}
 STREAMS = ['kernel', 'sites', 'sub0', 'sub1', 'sub2', 'fun0', 'fun1', 'int0', 'int1', 'sf', 'par', 'inputs', 'layout']
 OPTS = {
     'external_only': [True, False], 'adjust_imports': [True, False],
@@ -621,8 +629,20 @@ OPTS = {
 }
 
 
-def specs(eps=None, flag_pct=45):
-    return spec_strategy(eps or EPS, FLAGS, STREAMS, SIZES, OPTS, flag_pct=flag_pct)
+def program_spec(seed):
+    """
+    the explicit spec of ONE program (flags, sizes, choice streams) plus one drawn option set, as a pure
+    function of a Hypothesis-drawn integer; the program does not depend on 'ep' / 'opts' (which entry point
+    is applied is decided by the variant list of props/c28.py)
+    """
+    spec = expand_spec(seed, EPS, FLAGS, STREAMS, SIZES, OPTS, flag_pct=FLAG_PCT)
+    draws = _expand(seed, 'flags', len(FLAGS), 100)
+    spec['flags'] = {f: v < FLAG_PCTS.get(f, FLAG_PCT) for f, v in zip(FLAGS, draws)}
+    return spec
+
+
+def specs():
+    return st.integers(0, (1 << 48) - 1).map(program_spec)
 
 
 class B:
@@ -1059,6 +1079,28 @@ def _array_actual(b, g, env, d, used_w, banned_w, banned_r):
     return e, a
 
 
+def env_without(env, names):
+    """shallow copy of env in which the variables ``names`` do not exist (for expressions that must not mention them)"""
+    e = gen.Env(env.parent)
+    e.__dict__.update(env.__dict__)
+    e.vars = {k: v for k, v in env.vars.items() if k not in names}
+    e.active_loops = {k: v for k, v in env.active_loops.items() if k not in names}
+    e.loopvars = [x for x in env.loopvars if x not in names]
+    return e
+
+
+def actuals_env(b, env, dummy_names):
+    """
+    environment for the expressions passed as actual arguments: with clash_dummy (callee dummies named like caller
+    variables) and without clash_actual, no actual mentions a caller variable that is named like a dummy of the callee
+    """
+    if b.F('clash_dummy') and not b.F('clash_actual'):
+        return env_without(env, set(dummy_names))
+    if b.F('clash_dummy') and b.F('clash_actual'):
+        b.use('clash_actual')
+    return env
+
+
 def make_call(b, g, env, sig, marked, allow_absent=True, banned_w=(), banned_r=()):
     """
     CALL statement (list of statements incl. the pragma) to subroutine ``sig`` with actuals from ``env``
@@ -1071,13 +1113,15 @@ def make_call(b, g, env, sig, marked, allow_absent=True, banned_w=(), banned_r=(
     used_w = set()
     actuals = {}
     order = sorted(sig['dummies'], key=lambda d: 0 if d['intent'] != 'in' else 1)
+    full_env = env
+    env = actuals_env(b, env, [d['name'] for d in sig['dummies']])
     for d in order:
         nm, t = d['name'], d['type']
         if d['role'] == 'kd':
             actuals[nm] = lit(d['E'])
             continue
         if d['role'] == 'arr':
-            e, a = _array_actual(b, g, env, d, used_w, banned_w, banned_r)
+            e, a = _array_actual(b, g, full_env, d, used_w, banned_w, banned_r)
             if e is None:
                 return None
             if d['intent'] != 'in':
@@ -1096,16 +1140,16 @@ def make_call(b, g, env, sig, marked, allow_absent=True, banned_w=(), banned_r=(
             elif F('act_elem') and env.arrays(t) and g.chance(50):
                 actuals[nm] = gen.element(g, env, g.pick(env.arrays(t)), 0)
             else:
-                sc = env.scalars(t) + list(env.active_loops if t == 'int' else [])
+                sc = full_env.scalars(t) + list(full_env.active_loops if t == 'int' else [])
                 if sc and g.chance(80):
                     a = g.pick(sc)
-                    actuals[nm] = gen.designator_for(env, a) if a in env.vars else var(a)
+                    actuals[nm] = gen.designator_for(full_env, a) if a in full_env.vars else var(a)
                 else:
                     actuals[nm] = default_of(t)
             continue
         # scalar inout / out
-        sc = [a for a in env.scalars(t, writable=True) if a not in used_w and a not in banned_w
-              and not env.vars[a].get('fuel') and not env.vars[a].get('path')]
+        sc = [a for a in full_env.scalars(t, writable=True) if a not in used_w and a not in banned_w
+              and not full_env.vars[a].get('fuel') and not full_env.vars[a].get('path')]
         ar = [a for a in env.arrays(t, writable=True) if a not in used_w and a not in banned_w
               and not env.vars[a].get('path')]
         if F('act_elem') and ar and (g.chance(50) or not sc):
@@ -1159,6 +1203,8 @@ def make_call(b, g, env, sig, marked, allow_absent=True, banned_w=(), banned_r=(
 
 def make_fcall(b, g, env, fsig, depth=1, nest_pool=()):
     args = []
+    if fsig.get('argnames') and not fsig.get('stmt'):
+        env = actuals_env(b, env, fsig['argnames'])
     for t in fsig['args']:
         inner = [f for f in nest_pool if f['rtype'] == t and f is not fsig]
         if inner and b.F('fn_nested') and depth > 0 and g.chance(60):
@@ -1317,12 +1363,35 @@ def fn_site(b, g, env, pool, prefix, subs_in=()):
     return [['assign', var(lhs), call]], 'plain'
 
 
+def _is_const(e):
+    """expression JSON without any variable / function reference"""
+    if isinstance(e, list):
+        if e and e[0] in ('d', 'f'):
+            return False
+        return all(_is_const(x) for x in e)
+    return True
+
+
+def has_constant_elseif(body):
+    from .model import walk_stmts
+    return any(s[0] == 'if' and any(_is_const(c) for c, _ in s[1][1:]) for _, s in walk_stmts(body))
+
+
+def no_constant_elseif(body, name):
+    """replace compile-time constant ELSE IF conditions by `<name> > 0` (a scalar intent(in) number)"""
+    from .model import walk_stmts
+    for _, s in walk_stmts(body):
+        if s[0] == 'if':
+            for br in s[1][1:]:
+                if _is_const(br[0]):
+                    br[0] = ['b', '>', var(name), lit(0)]
+
+
 # ---- the program ----------------------------------------------------------------------------
 def build(spec):
     """spec -> case dict {files, entry, inputs, layout, meta}"""
     b = B(spec)
     F = b.F
-    app = what_applies(spec)
     gk = b.g('kernel')
     # ---- parameters module
     gp = b.g('par')
@@ -1471,8 +1540,9 @@ def build(spec):
     ints_r, int_subs, int_funs = [], [], []
     for k in range(b.n.get('ints', 1)):
         g = b.g(f'int{k}')
-        if F('int_fun') and k == 1 and not app['internal']:
-            # inline_internal_procedures documents internal FUNCTIONS as unsupported: they only occur as context
+        if F('int_fun') and k == 1:
+            # inline_internal_procedures documents internal FUNCTIONS as unsupported: programs with one are context
+            # for the other entry points only (props/c28.py does not apply the internal-procedure variants to them)
             r, sig = make_fun(b, g, f'ifun{k}', 7 + k, [], elemental=False, host=env, internal=True)
             int_funs.append(sig)
             b.use('int_fun')
@@ -1485,20 +1555,15 @@ def build(spec):
     # ---- sites + filler
     gsite = b.g('sites')
     body = list(prologue)
-    nsites = b.n.get('sites', 2)
-    kinds = []
-    if app['marked'] or spec['ep'] in ('marked', 'trafo'):
-        kinds += ['msub'] * 3
-    if spec['ep'] in ('internal', 'trafo'):
-        kinds += ['isub'] * 3 + (['ifun'] if int_funs else [])
-    if spec['ep'] in ('functions', 'elemental', 'trafo'):
-        kinds += ['fun'] * 3
-    if spec['ep'] in ('stmtfunc', 'trafo'):
-        kinds += ['sf'] * 3
-    if spec['ep'] == 'constants' or (spec['ep'] == 'trafo' and app['constants']):
-        kinds += ['const'] * 3
-    # context constructs that the entry point leaves alone (they must survive unchanged)
-    kinds += ['msub', 'fun', 'sf', 'const', 'isub']
+    # every program has one unconditional top-level site of every kind (in a drawn order), so that every entry
+    # point has something to rewrite that executes; further sites are drawn and may sit in loops / IF blocks
+    kinds = ['msub', 'isub', 'fun', 'efun', 'sf', 'const'] + (['ifun'] if int_funs else [])
+    first = list(kinds)
+    order_ = []
+    while first:
+        order_.append(first.pop(gsite.i(0, len(first) - 1)))
+    nfirst = len(order_)
+    nsites = nfirst + b.n.get('sites', 0)
     callee_uses = {}
     meta_sites = []
     gfill = gk.sub()
@@ -1511,8 +1576,11 @@ def build(spec):
         return out
 
     for si in range(nsites):
-        kind = gsite.pick(kinds) if si > 0 else gsite.pick(kinds[:max(1, len(kinds) - 5)])
-        uncond = si == 0
+        kind = order_[si] if si < nfirst else gsite.pick(kinds)
+        uncond = si < nfirst
+        elem_only = kind == 'efun'
+        if elem_only:
+            kind = 'fun'
         in_loop = (not uncond) and F('site_in_loop') and gsite.chance(45) and gen.free_loopvar(env) is not None
         lv = None
         if in_loop:
@@ -1528,7 +1596,7 @@ def build(spec):
                 cand = [s for s in subs if s['name'] not in callee_uses] or (subs if F('multi_site') else [])
             if cand:
                 s = gsite.pick(cand)
-                marked = spec['ep'] in ('marked', 'trafo')
+                marked = True
                 if marked and F('unmarked_mix') and callee_uses.get(s['name']):
                     marked = False
                     b.use('unmarked_mix')
@@ -1551,13 +1619,17 @@ def build(spec):
                         b.use('multi_site')
                     callee_uses[s['name']] = callee_uses.get(s['name'], 0) + 1
                     form = 'call'
+                    if F('site_if1_call') and not uncond and not in_loop and gsite.chance(50):
+                        stmts = [['if1', gen.log_expr(gsite, env, 1), stmts[-1]]]
+                        form = 'if1call'
+                        b.use('site_if1_call')
         elif kind == 'ifun' and int_funs:
             stmts, form = fn_site(b, gsite, env, int_funs, 'fn')
         elif kind == 'fun' and funs:
             pool = funs
-            if spec['ep'] == 'elemental':
+            if elem_only:
                 pool = [f for f in funs if f['elemental']] or funs
-            msubs = [dict(s, marked=spec['ep'] in ('marked', 'trafo')) for s in subs]
+            msubs = [dict(s, marked=True) for s in subs]
             stmts, form = fn_site(b, gsite, env, pool, 'fn', subs_in=msubs)
         elif kind == 'sf' and sfs:
             stmts, form = fn_site(b, gsite, env, sfs, 'sf')
@@ -1590,6 +1662,8 @@ def build(spec):
             body += filler(1)
             meta_sites.append({'kind': kind, 'form': None})
             continue
+        if kind == 'fun' and all(f['elemental'] for f in pool):
+            kind = 'efun'      # (meta only) every function of the pool is elemental
         where = 'top'
         if in_loop:
             lo, hi = lo, hi
@@ -1639,6 +1713,18 @@ def build(spec):
     gi = b.g('inputs')
     inputs = gen.gen_inputs(gi, entry_args, 4)
     layout = layout_from(b.g('layout'))
+    if layout.get('idcase') == 'mixed':
+        if F('mixed_case'):
+            b.use('mixed_case')
+        else:
+            layout['idcase'] = 'lower'
+    if not F('const_elseif'):
+        for r_ in funs_r + subs_r:
+            no_constant_elseif(r_['body'], r_['args'][0])
+        for r_ in ints_r + [kern]:
+            no_constant_elseif(r_['body'], 'xi0')
+    elif any(has_constant_elseif(r_['body']) for r_ in funs_r + subs_r + ints_r + [kern]):
+        b.use('const_elseif')
     order = [s['name'] for s in subs]
     return {'files': [f], 'entry': {'module': 'kmod', 'name': 'kernel', 'args': entry_args},
             'inputs': inputs, 'layout': layout,
